@@ -12,27 +12,30 @@ MANIFEST = {
     "text": "PARTIAL. Proved in Lean for every signature (any length, varargs or not) over the convention's type domain: the model of "
             "FuncDetail::init yields exactly the locations, stack-area size, callee-pop flag, red / shadow zone, stack alignment and preserved "
             "sets that the ABI rules prescribe for SysV x86-64, Win64, AAPCS64 and Apple arm64 (detail_matches_abi_sysv/_win64/_a64, "
-            "ret_matches_abi) and for 32-bit cdecl/stdcall/fastcall/thiscall/regparm (detail_matches_abi_x32; 64-bit integers only where the "
-            "convention has no integer registers); light-call and x64 vectorcall model + correspondence only. Argument shuffle: Model/ArgShuffle.lean is an executable model of init_work_data, WorkData, the three phases "
+            "ret_matches_abi; SysV over every concrete TypeId including __m64 = class SSE and long double = class MEMORY, fixes C06-14/15) "
+            "and for 32-bit cdecl/stdcall/fastcall/thiscall/regparm (detail_matches_abi_x32; 64-bit integers under cdecl/stdcall and, passed "
+            "on the stack as a whole, under __fastcall/__thiscall, fix C06-16; not under GCC regparm); light-call and x64 vectorcall model + correspondence only. Argument shuffle: Model/ArgShuffle.lean is an executable model of init_work_data, WorkData, the three phases "
             "of emit_args_assignment and of emit_arg_move/emit_reg_move/emit_reg_swap (x86 and a64) that reproduces the real Builder output "
             "instruction for instruction on every generated line. Proved: the x86 integer move selection extends as the types require for all "
-            "type pairs (x86_int_arg_move_extends), AArch64 loads likewise outside two excluded classes; the register phase at schedule "
+            "type pairs (x86_int_arg_move_extends), AArch64 moves and loads likewise (a64_int_load_extends, a64_int_moves_ok; fix C06-13); the register phase at schedule "
             "level (shuffle_regphase_correct: induction over visits and passes with the invariant 'phys is the inverse of cur, every value "
             "sits at cur, writes hit only unassigned registers or exchange two variables'): from any well-formed context, for every number "
             "of register arguments and every injective destination assignment, ok => every destination holds its variable in destination "
-            "form, under hypotheses that exclude exactly K3 (widening variable in an exchanged pair) and K5 (selection that does not extend); "
-            "K4 is outside the invariant; init_work_data is proved to establish the invariant (initWorkData_wf), giving shuffle_correct_regs: for "
-            "every register-only assignment, emitArgsAssignment ok => judge(run prog (setup ..)) = true; the selection hypothesis is discharged for "
-            "x86 integer variables and all register ids (x86_int_hyp_all_ids); every register-only initial context of the sweep is checked "
+            "form, under the hypothesis that the selected moves produce destination form (no hypothesis about exchanges is left: a variable an "
+            "exchange leaves unextended stays not done, fix C06-12; a destination in another group is refused, fix C06-11); init_work_data is proved to establish the invariant (initWorkData_wf), giving shuffle_correct_regs: for "
+            "every register-only assignment, emitArgsAssignment ok => judge(run prog (setup ..)) = true; all hypotheses are discharged for integer "
+            "arguments in GP registers on x86 (every emitter configuration) and AArch64, all register ids: shuffle_correct_int_regs, which has "
+            "no hypothesis on the code's choices and covers exchanged pairs with widening, chains, scratch-broken cycles and widening in place; every register-only initial context of the sweep is checked "
             "at run time against an executable mirror of the invariant (wf0). phase 3 (stack sources loaded into registers) is proved at context level (shuffle_phase3_correct) on the generalised "
             "invariant; NOT proved: its link to init_work_data, phase 1 (stack destinations) and the moving SA variable; "
-            "the full-strength shuffle_correct is shown false at the K3/K4/K5 witnesses. Every schedule the real code emits is additionally "
+            "the former K3/K4/K5 witnesses are now theorems of correct / refused behaviour (shuffle_swap_ext_repaired, shuffle_cross_group_refused, "
+            "shuffle_a64_ext_repaired). Every schedule the real code emits is additionally "
             "judged by the abstract machine of Spec/Machine.lean (monitor = testing).",
-    "note": "Model follows the code with fixes C06-1..7 (in /repo) and fixes/C06-8, C06-9 (non-termination on AArch64 / same-register "
-            "conversion; until applied the check reports exactly those two classes). Trusted: Lean kernel; Spec/ABI.lean and Spec/Machine.lean as the meaning of the ABIs / of "
+    "note": "Model follows the code with fixes C06-1..10 (in /repo) and fixes/C06-11..16 (repairs of the former open findings K4, K3, K5, K1, K2, "
+            "K6; until they are applied to /repo the check reports exactly those six classes). Trusted: Lean kernel; Spec/ABI.lean and Spec/Machine.lean as the meaning of the ABIs / of "
             "the mov family; the FuncFrame facts (dirty/preserved masks, SA register/offsets) are inputs taken from the real frame (C07); the "
-            "harness/driver diff. Open findings C06-K1..K7. Not claimed: x87 long double, mmx on 32-bit, call-site marshalling inside the "
-            "register allocator (C05), shuffle_correct as a theorem, byte overlap of stack slots (movaps stores 16 bytes for a float).",
+            "harness/driver diff. No open finding. Not claimed: mmx on 32-bit, 64-bit integers under GCC regparm, call-site marshalling inside the "
+            "register allocator (C05), shuffle_correct for stack destinations / non-integer groups without the selection hypothesis, byte overlap of stack slots (movaps stores 16 bytes for a float).",
 }
 MODS = ["AsmjitVerif.Props.C06"]
 
@@ -96,7 +99,7 @@ def gen_fd(rng, tier):
                 a[pos] = 79
                 sigs.append((255, 0, a[:max(pos + 2, 6)]))
                 sigs.append((255, 79, [79] * (pos + 1)))
-            # long double (known finding K2 on SysV; outside the domain elsewhere)
+            # long double (SysV: class MEMORY, fix C06-15; outside the domain elsewhere)
             sigs.append((255, 0, [44]))
             sigs.append((255, 0, [43] * 8 + [44, 38]))
             # varargs at every index
@@ -196,9 +199,9 @@ def run(res):
     rng = vlib.rng_for(res.seed, PID)
     res.assumptions += [
         "Spec/ABI.lean is our reading of the psABI / Microsoft / AAPCS64 / Apple documents (trusted as the meaning of 'the ABI prescribes')",
-        "the model follows the code with fixes C06-1..6 (applied in /repo) and fixes/C06-7; light-call, x64 vectorcall, Float80, x87/mmx returns: model + correspondence only",
-        "32-bit x86 conventions: rules + monitor, no theorem; emit_args_assignment: executable model tied by correspondence + abstract-machine "
-        "monitor on the real instruction lists; schedule-level theorem not proved; instruction semantics = Spec/Machine.lean; "
+        "the model follows the code with fixes C06-1..10 (applied in /repo) and fixes/C06-11..16; light-call, x64 vectorcall, x87/mmx returns, Float80 outside SysV: model + correspondence only",
+        "emit_args_assignment: executable model tied by correspondence + abstract-machine monitor on the real instruction lists; the schedule-level "
+        "theorem covers register-only assignments (phase 3 at context level); instruction semantics = Spec/Machine.lean; "
         "FuncFrame facts are inputs of the shuffle model (taken from the real frame)",
         "call-site marshalling in x86rapass/a64rapass (on_before_invoke) is not modelled here (C05)"]
     broken = []
